@@ -95,8 +95,22 @@ impl fmt::Display for Obj {
 }
 impl fmt::Debug for Obj {
     fn fmt(&self, f: &mut fmt::Formatter<'_>) -> fmt::Result {
+        // hostile renderings (C16): while a hook is installed on this thread, rendering the object
+        // whose debug text is the trigger runs the hook first (it emits a tracing event, or panics)
+        DEBUG_EFFECT.with(|e| {
+            if let Some((trigger, effect)) = &*e.borrow() {
+                if *trigger == self.debug {
+                    effect();
+                }
+            }
+        });
         f.write_str(&self.debug)
     }
+}
+
+thread_local! {
+    /// `(debug text that triggers, what happens before it is rendered)`; see `impl Debug for Obj`.
+    pub static DEBUG_EFFECT: std::cell::RefCell<Option<(String, Box<dyn Fn()>)>> = const { std::cell::RefCell::new(None) };
 }
 
 /// A primitive value a program records.  `Int`/`UInt` must be in the range of their width.
@@ -892,6 +906,30 @@ pub fn gen_prog(r: &mut Rng, cfg: &GenCfg) -> Prog {
         };
         sites.push(data);
     }
+    // a "twin": a second call site that differs from one of the pool in exactly one attribute (what one
+    // macro invocation emitting at two levels, or two builds of one crate, produce)
+    if r.chance(35) {
+        let k = r.below(sites.len() as u64) as usize;
+        let mut twin = sites[k].clone();
+        match r.below(6) {
+            0..=2 => {
+                let levels = [TracingLevel::Error, TracingLevel::Warn, TracingLevel::Info, TracingLevel::Debug, TracingLevel::Trace];
+                let cur = levels.iter().position(|l| *l == twin.level).unwrap_or(0);
+                twin.level = levels[(cur + 1 + r.below(4) as usize) % 5];
+            }
+            3 => twin.line = Some(twin.line.map_or(7, |l| l.wrapping_add(1))),
+            4 => twin.module_path = if twin.module_path.is_some() { None } else { Some("guest::twin".into()) },
+            _ => {
+                if twin.fields.len() < 32 {
+                    twin.fields.push("twin_extra".into());
+                } else {
+                    twin.fields.pop();
+                }
+            }
+        }
+        sites.push(twin);
+    }
+    let nsites = sites.len();
     let span_sites: Vec<usize> = (0..nsites).filter(|i| matches!(sites[*i].kind, CallSiteKind::Span)).collect();
     let event_sites: Vec<usize> = (0..nsites).filter(|i| matches!(sites[*i].kind, CallSiteKind::Event)).collect();
 
